@@ -1,9 +1,13 @@
 package rules
 
 import (
+	"go/ast"
 	"go/constant"
+	"go/importer"
+	"go/parser"
 	"go/token"
 	"go/types"
+	"golang.org/x/tools/go/ssa/ssautil"
 	"sort"
 	"strings"
 
@@ -373,4 +377,174 @@ func osConst(m *core.Module, name string) int64 {
 	}
 	v, _ := constant.Int64Val(cst.Val())
 	return v
+}
+
+// R-RUNESLICE (C19 "for every schema whose names are valid identifiers ... emits gofmt-valid Go"): identifiers may
+// start with any Unicode letter. Slicing a string at a constant byte offset (s[:1], s[1:]) cuts a multi-byte first
+// letter in half; case-mapping the half yields U+FFFD and a dangling continuation byte, the output no longer parses
+// and the generator panics. Every slice of a string-typed value at a non-zero constant bound in the generator is an
+// obligation; discharged when, on every path, the leading byte was compared with utf8.RuneSelf / 0x80 (it is ASCII).
+// Offsets computed from the text (strings.Index, utf8.DecodeRuneInString) are not constant and are not obligations.
+func (c *Ctx) ruleRuneSlice(rule string) {
+	g := c.Gen
+	if g == nil {
+		c.R.Unresolved(rule, "code generator module")
+		return
+	}
+	if msg := selfTestRuneSlice(); msg != "" {
+		c.R.Unresolved(rule, "self-test of the slice classifier failed: "+msg)
+		return
+	}
+	c.R.Ok(rule, key(rule, "self-test", "constant-offset string slice flagged, rune-aware variant not"), "-", "classifier exercised on the built-in positive / negative example", "1 flagged, 1 discharged, 1 not an obligation, as expected")
+	n := 0
+	for _, fn := range g.SortedFuncs(allFuncs(g)) {
+		for i, s := range classifyStringSlices(fn) {
+			n++
+			k := key(rule, g.Key(fn), sprintf("string slice at a constant byte offset #%d", i+1))
+			if s.ok {
+				c.R.Ok(rule, k, g.InstrPos(s.in), "byte-offset slice of text", s.reason)
+			} else {
+				c.R.Bad(rule, k, g.InstrPos(s.in), "a string is cut at a constant byte offset", s.reason)
+			}
+		}
+	}
+	c.R.Note("%s: %d constant-offset string slices in the generator", rule, n)
+}
+
+type strSliceSite struct {
+	in     *ssa.Slice
+	ok     bool
+	reason string
+}
+
+func classifyStringSlices(fn *ssa.Function) []strSliceSite {
+	var out []strSliceSite
+	for _, b := range fn.Blocks {
+		for _, in := range b.Instrs {
+			sl, ok := in.(*ssa.Slice)
+			if !ok {
+				continue
+			}
+			bt, ok := sl.X.Type().Underlying().(*types.Basic)
+			if !ok || bt.Info()&types.IsString == 0 {
+				continue
+			}
+			constBound := false
+			for _, bd := range []ssa.Value{sl.Low, sl.High} {
+				if bd == nil {
+					continue
+				}
+				if k, isC := core.ConstInt(bd); isC && k != 0 {
+					constBound = true
+				}
+			}
+			if !constBound {
+				continue
+			}
+			// ASCII fact: s[0] < 0x80 (or < utf8.RuneSelf) on every path
+			est := func(cond core.Cond) bool {
+				bo, ok := cond.V.(*ssa.BinOp)
+				if !ok {
+					return false
+				}
+				isFirstByte := func(v ssa.Value) bool {
+					for {
+						cv, ok := v.(*ssa.Convert)
+						if !ok {
+							break
+						}
+						v = cv.X
+					}
+					var base, index ssa.Value
+					switch lk := v.(type) {
+					case *ssa.Index:
+						base, index = lk.X, lk.Index
+					case *ssa.Lookup:
+						base, index = lk.X, lk.Index
+					default:
+						return false
+					}
+					if base != sl.X {
+						return false
+					}
+					i, isC := core.ConstInt(index)
+					return isC && i == 0
+				}
+				k, isC := core.ConstInt(bo.Y)
+				if !isC || !isFirstByte(bo.X) {
+					return false
+				}
+				switch bo.Op {
+				case token.LSS:
+					return cond.True && k <= 0x80
+				case token.GEQ:
+					return !cond.True && k <= 0x80
+				case token.LEQ:
+					return cond.True && k < 0x80
+				case token.GTR:
+					return !cond.True && k < 0x80
+				}
+				return false
+			}
+			if core.MustHold(fn, est)[b] {
+				out = append(out, strSliceSite{sl, true, "on every path the first byte was found below utf8.RuneSelf: the cut is at a character boundary"})
+			} else {
+				out = append(out, strSliceSite{sl, false, "the offset counts bytes, the text is UTF-8: a first letter such as 'ö' or 'δ' (valid in Go identifiers) is cut in half, strings.ToUpper turns the half into U+FFFD, format.Source rejects the output and the generator panics"})
+			}
+		}
+	}
+	return out
+}
+
+const runeSliceExample = `package p
+import "unicode/utf8"
+func bad(s string) string { return s[:1] }
+func good(s string) string {
+	if s[0] < utf8.RuneSelf { return s[1:] }
+	return s
+}
+func none(s string) string {
+	_, n := utf8.DecodeRuneInString(s)
+	return s[n:]
+}
+`
+
+var runeSliceSelfTest *string
+
+func selfTestRuneSlice() string {
+	if runeSliceSelfTest != nil {
+		return *runeSliceSelfTest
+	}
+	res := func() string {
+		fset := token.NewFileSet()
+		f, err := parser.ParseFile(fset, "p.go", runeSliceExample, 0)
+		if err != nil {
+			return err.Error()
+		}
+		pkg := types.NewPackage("p", "p")
+		sp, _, err := ssautil.BuildPackage(&types.Config{Importer: importer.Default()}, fset, pkg, []*ast.File{f}, ssa.SanityCheckFunctions)
+		if err != nil {
+			return err.Error()
+		}
+		want := map[string][2]int{"bad": {1, 0}, "good": {1, 1}, "none": {0, 0}}
+		for name, w := range want {
+			fn := sp.Func(name)
+			if fn == nil {
+				return "missing " + name
+			}
+			sites := classifyStringSlices(fn)
+			okN := 0
+			for _, s := range sites {
+				if s.ok {
+					okN++
+				}
+			}
+			if len(sites) != w[0] || okN != w[1] {
+				return sprintf("example %s: %d sites, %d discharged; want %d, %d", name, len(sites), okN, w[0], w[1])
+			}
+		}
+		return ""
+	}()
+	runeSliceSelfTest = &res
+	return res
 }
